@@ -70,6 +70,14 @@ class ElectrumWallet(Key):
             self._secret_exponent = initial_key_to_master_key(b2h(self._initial_key))  # type: ignore[arg-type]
         return self._secret_exponent  # type: ignore[return-value]
 
+    def as_text(self) -> str:
+        """
+        Return the "E:" text form that parse.electrum_seed / electrum_prv / electrum_pub read back.
+        """
+        if self._initial_key is not None:
+            return "E:%s" % self._initial_key
+        return "E:%s" % b2h(self.serialize())
+
     def master_private_key(self) -> int | None:
         return self.secret_exponent()
 
